@@ -25,6 +25,7 @@ type Contract struct {
 	TreeObserver bool  // reads tree structure: result is stable until the next tree mutation on the path
 	Pre         string // precondition-bearing callee (deny-list, C09)
 	OkNonNil    []int  // result indexes that are non-nil whenever the callee's error result is nil
+	ConcSafeRecv bool  // documented safe for concurrent use on a shared receiver, and does not change what the receiver denotes
 	Note        string
 }
 
@@ -85,6 +86,14 @@ var contracts = map[string]*Contract{
 	"(*bytes.Buffer).String":      {},
 	"(*bytes.Buffer).WriteByte":   {Writes: []int{0}},
 	"(*bytes.Buffer).WriteString": {Writes: []int{0}},
+	"(*bytes.Buffer).WriteRune":   {Writes: []int{0}},
+	"(*strings.Builder).Len":         {},
+	"(*strings.Builder).String":      {},
+	"(*strings.Builder).Grow":        {Writes: []int{0}},
+	"(*strings.Builder).WriteByte":   {Writes: []int{0}},
+	"(*strings.Builder).WriteRune":   {Writes: []int{0}},
+	"(*strings.Builder).WriteString": {Writes: []int{0}},
+	"strings.Join":                   {Det: true},
 	// --- std: encoding
 	"(*encoding/base64.Encoding).DecodeString":   {Det: true},
 	"(*encoding/base64.Encoding).EncodeToString": {Det: true},
@@ -125,10 +134,11 @@ var contracts = map[string]*Contract{
 	"(net/url.Values).Encode":         {},
 	"net/url.QueryEscape":             {Det: true},
 	"net/http.Redirect":               {Writes: []int{0}},
+	"encoding/hex.Encode":             {Writes: []int{0}},
 	"html/template.New":               {NonNil: []int{0}},
 	"(*html/template.Template).Parse": {Writes: []int{0}, OkNonNil: []int{0}},
 	"html/template.Must":              {NonNil: []int{0}, Pre: "err == nil"},
-	"(*html/template.Template).Execute": {Writes: []int{1}},
+	"(*html/template.Template).Execute": {Writes: []int{1}, ConcSafeRecv: true, Note: "html/template: a template may be executed safely in parallel"},
 	// --- std: sync
 	"(*sync.RWMutex).RLock":   {},
 	"(*sync.RWMutex).RUnlock": {},
